@@ -67,7 +67,8 @@ theorem next_raw (pu : Bool) (f : Nat) (s : Str) (hs : LenOk s) (d : Char) (hd :
   | cons c cs =>
     have h1 : ∀ x ∈ c :: cs, ordinary x = true := fun x hx => (lenChar_ordinary x (hall x hx)).1
     have h2 : isQuote c = false := (lenChar_ordinary c (hall c (by simp))).2
-    rw [next_plain pu f c cs rest d h1 h2 hdc hdu cm0]
+    obtain ⟨hfo, hpa⟩ := follower_cap d hd rest
+    rw [next_plain pu f c cs (d :: rest) h1 h2 hfo.1 cm0, hpa]
     have : (c :: cs).map (conv pu) = c :: cs := by
       conv => rhs; rw [← List.map_id (c :: cs)]
       apply List.map_congr_left
